@@ -18,7 +18,7 @@ Rust variants.  What the look-ups return (any entry with that name) stays in the
 (`optChoices`) and is tied to the code by the `queue` stream only.
 -/
 import KrillModel.Generated.PureFnsC09
-import KrillModel.Queue.Queue
+import KrillModel.Queue.TaskQueue
 namespace KM.Props.C09Src
 open KM.Queue
 
@@ -199,5 +199,87 @@ example :
     (([⟨2, "b", ""⟩, ⟨3, "a", ""⟩] : List Entry).foldl (genStep 5) none).map (·.2.name) = some "b" ∧
     (([⟨2, "b", ""⟩, ⟨2, "c", ""⟩] : List Entry).foldl (genStep 5) none).map (·.2.name) = some "c" ∧
     (([⟨7, "a", ""⟩] : List Entry).foldl (genStep 5) none) = none := by decide
+
+/-! ## The entry points of `TaskQueue` (`src/server/mq.rs`)
+
+`TaskQueue::schedule`, `schedule_and_finish_existing`, `schedule_missing` (which `ScheduleMode` each hands
+on), the private `TaskQueue::schedule_task` (name and JSON of the task, `Some(priority.to_millis())` as the
+time stamp, the mode unchanged) and `TaskQueue::reschedule` are regenerated too.  Composed with the
+generated closure of `Queue::schedule_task` they are the model's `tqSchedule` / `tqScheduleFinish` /
+`tqScheduleMissing` for every resolution of the two look-ups: the follow-up theorems of Props/C09.lean
+(`followups_scheduled`, `soonest_keeps_earlier`, `if_missing_keeps_existing`, the start-up tasks scheduled
+with `schedule_missing`) speak about these.  The seeded change C09 (round 1: `schedule_missing` where
+`schedule` is needed) was an edit of a CALLER; an edit of the entry point itself (another mode, the clock
+instead of the priority) changes a generated definition here. -/
+
+/-- The generated entry point over the generated private helper over the generated closure of the queue,
+on a model queue state, for one resolution `(p, r)` of the two look-ups. -/
+def genEntry (entry : (String × String → KM.Gen.C09.ScheduleMode → Nat → Except Unit QState) → String × String → Nat → Except Unit QState)
+    (s : QState) (name val : String) (secs now : Nat) (p r : Option Entry) : Except Unit QState :=
+  entry
+    (fun task mode prio =>
+      KM.Gen.C09.TaskQueue.schedule_task (fun t : String × String => t.1) (fun t => Except.ok t.2) prioMillis
+        (fun nm js tsOpt mode =>
+          Except.ok (KM.Gen.C09.Queue.schedule_task (σ := QState) (κ := Entry)
+            (fun st e => { st with pending := kvDel st.pending e.ts e.name })
+            (fun st e => { st with running := kvDel st.running e.ts e.name })
+            (fun st t => { st with pending := kvPut st.pending ⟨t, nm, js⟩ })
+            now s tsOpt mode (found p) (found r)))
+        id task mode prio)
+    (name, val) secs
+
+theorem gen_tq_entry (mode : Mode) (s : QState) (name val : String) (secs now : Nat) (p r : Option Entry) :
+    KM.Gen.C09.TaskQueue.schedule_task (fun t : String × String => t.1) (fun t => Except.ok t.2) prioMillis
+        (fun nm js tsOpt mode =>
+          Except.ok (ε := Unit) (KM.Gen.C09.Queue.schedule_task (σ := QState) (κ := Entry)
+            (fun st e => { st with pending := kvDel st.pending e.ts e.name })
+            (fun st e => { st with running := kvDel st.running e.ts e.name })
+            (fun st t => { st with pending := kvPut st.pending ⟨t, nm, js⟩ })
+            now s tsOpt mode (found p) (found r)))
+        id (name, val) (toGen mode) secs =
+      Except.ok (scheduleWith s name val (prioMillis secs) mode p r) := by
+  unfold KM.Gen.C09.TaskQueue.schedule_task
+  simp only [Except.mapError]
+  rw [gen_schedule_task_eq_model]
+  rfl
+
+/-- `TaskQueue::schedule` = `ReplaceExistingSoonest` at the time of the priority. -/
+theorem gen_tq_schedule_eq_model (s : QState) (name val : String) (secs now : Nat) (p r : Option Entry) :
+    genEntry (fun st => KM.Gen.C09.TaskQueue.schedule st) s name val secs now p r =
+      Except.ok (scheduleWith s name val (prioMillis secs) .replaceExistingSoonest p r) := by
+  unfold genEntry KM.Gen.C09.TaskQueue.schedule
+  exact gen_tq_entry .replaceExistingSoonest s name val secs now p r
+
+/-- `TaskQueue::schedule_and_finish_existing` = `FinishOrReplaceExistingSoonest`. -/
+theorem gen_tq_schedule_finish_eq_model (s : QState) (name val : String) (secs now : Nat) (p r : Option Entry) :
+    genEntry (fun st => KM.Gen.C09.TaskQueue.schedule_and_finish_existing st) s name val secs now p r =
+      Except.ok (scheduleWith s name val (prioMillis secs) .finishOrReplaceExistingSoonest p r) := by
+  unfold genEntry KM.Gen.C09.TaskQueue.schedule_and_finish_existing
+  exact gen_tq_entry .finishOrReplaceExistingSoonest s name val secs now p r
+
+/-- `TaskQueue::schedule_missing` = `IfMissing`. -/
+theorem gen_tq_schedule_missing_eq_model (s : QState) (name val : String) (secs now : Nat) (p r : Option Entry) :
+    genEntry (fun st => KM.Gen.C09.TaskQueue.schedule_missing st) s name val secs now p r =
+      Except.ok (scheduleWith s name val (prioMillis secs) .ifMissing p r) := by
+  unfold genEntry KM.Gen.C09.TaskQueue.schedule_missing
+  exact gen_tq_entry .ifMissing s name val secs now p r
+
+/-- The model's three entry points are exactly these, over every resolution of the look-ups. -/
+theorem tq_entries_are_scheduleWith (s : QState) (name val : String) (secs : Nat) :
+    tqSchedule s name val secs =
+      (optChoices s.pending name).flatMap (fun p => (optChoices s.running name).map fun r =>
+        scheduleWith s name val (prioMillis secs) .replaceExistingSoonest p r) ∧
+    tqScheduleFinish s name val secs =
+      (optChoices s.pending name).flatMap (fun p => (optChoices s.running name).map fun r =>
+        scheduleWith s name val (prioMillis secs) .finishOrReplaceExistingSoonest p r) ∧
+    tqScheduleMissing s name val secs =
+      (optChoices s.pending name).flatMap (fun p => (optChoices s.running name).map fun r =>
+        scheduleWith s name val (prioMillis secs) .ifMissing p r) := ⟨rfl, rfl, rfl⟩
+
+/-- `TaskQueue::reschedule`: the claimed task's own key, at the time of the priority. -/
+theorem gen_tq_reschedule_eq_model (s : QState) (key : Entry) (secs : Nat) :
+    KM.Gen.C09.TaskQueue.reschedule prioMillis
+        (fun (k : Entry) (t : Option Nat) => t.map fun ts => reschedule s k.ts k.name ts) key secs =
+      some (reschedule s key.ts key.name (prioMillis secs)) := rfl
 
 end KM.Props.C09Src
